@@ -18,6 +18,10 @@ func (t *tr) genLoop(h *loopHead, body []ast.Stmt, rest []ast.Stmt, k func() str
 		outer[n] = b
 	}
 	savedRet, savedAcc := t.loopRet, t.acc
+	if savedRet != nil && hasReturn(body) {
+		// (the inner loop's `Some r => r` would become the accumulator of the outer loop)
+		t.fail("return inside a loop that is nested in another loop")
+	}
 	defer func() { t.loopRet, t.acc = savedRet, savedAcc }()
 
 	// ---- dry run: what does the body change, what does it read first -----
